@@ -4,7 +4,7 @@
    description and simulator type. *)
 From Coq Require Import List Bool Arith.
 Import ListNotations.
-From MV Require Import Static.Attrs Gen.InOrOutSet Static.SetsTie.
+From MV Require Import Static.Attrs Static.AttrsP Gen.InOrOutSet Static.SetsTie.
 From MV Require Gen.ParseAttrs.
 
 Theorem tie_parse_attrs d ty : MV.Gen.ParseAttrs.parse_attrs d ty = MV.Static.Attrs.parse_attrs d ty.
@@ -17,3 +17,14 @@ Proof.
     match goal with |- context [MV.Static.Attrs.parse_set_triple ?u ?a ?b] => destruct (MV.Static.Attrs.parse_set_triple u a b) as [[mo eo]| | | |] end; try reflexivity;
     rewrite ?tie_eq; repeat match goal with |- context [if ?c then _ else _] => destruct c end; reflexivity.
 Qed.
+
+(* the classification theorem stated of the regenerated parse_attrs itself *)
+Lemma generated_classification_sound : forall d ty mi ei mo eo, MV.Gen.ParseAttrs.parse_attrs d ty = POk (mi, ei, mo, eo) ->
+  (forall x, mem x mi && mem x ei = false) /\ (forall x, mem x mo && mem x eo = false) /\
+  (forall x, mem x mi || mem x ei = if d_any_inputs d then true else match d_attrs d with Some l => lmem x l | None => mem x mi || mem x ei end) /\
+  (forall l, d_attrs d = Some l -> forall x, mem x mo || mem x eo = lmem x l) /\
+  (forall l, d_nontrigger d = Some l -> mi = Fin l) /\ (forall l, d_trigger d = Some l -> ei = Fin l) /\
+  (forall l, d_persistent d = Some l -> mo = Fin l) /\ (forall l, d_nonpersistent d = Some l -> eo = Fin l) /\
+  (ty = ATimeBased -> (forall x, mem x ei = false) /\ (forall x, mem x eo = false)) /\
+  (ty = AEventBased -> (forall x, mem x mi = false) /\ (forall x, mem x mo = false)).
+Proof. intros d ty mi ei mo eo H. rewrite tie_parse_attrs in H. exact (parse_attrs_sound d ty mi ei mo eo H). Qed.
